@@ -30,9 +30,17 @@ def message():
 
 fixed = {bytes([7]) * n for n in (253, 254, 255, 256, 507, 508, 509, 510)} | {bytes([7]) * 254 + b"\0" + bytes([9]) * 254}
 msgs = sorted({message() for _ in range(count)} | fixed, key=lambda m: (len(m), m))
+n = 0
 with open(out, "wb") as f:
     for m in msgs:
         frame = bytes(mod.encode_cobs(bytearray(m)))
         case = b"\xfe" + struct.pack("<H", len(m)) + m + frame
         f.write(struct.pack("<I", len(case)) + case)
-print(len(msgs))
+        n += 1
+        # the client's command framing (zero terminated text) admits zero-free messages only
+        if 0 not in m and len(m) < 2000 and n % 4 == 0:
+            frame = bytes(mod.encode_command(bytearray(m)))
+            case = b"\xfd" + struct.pack("<H", len(m)) + m + frame
+            f.write(struct.pack("<I", len(case)) + case)
+            n += 1
+print(n)
